@@ -766,9 +766,9 @@ func compileAssignStmtRight(context *funcContext, stmt *ast.AssignStmt, reg int,
 			expr = stmt.Rhs[namesassigned]
 		}
 		idx := reg
-		if ec.ctype == ecLocal && lennames > 1 {
-			// multiple assignment: every right-hand side is evaluated before any
-			// store, so a local target must not be written while evaluating
+		if ec.ctype == ecLocal && (lennames > 1 || lenexprs > 1) {
+			// multiple assignment: every right-hand side (surplus ones too) is evaluated
+			// before any store, so a local target must not be written while evaluating
 			ec = ecnone(0)
 		}
 		if _, ok := expr.(*ast.LogicalOpExpr); ok && ec.ctype == ecLocal {
